@@ -217,6 +217,8 @@ def run(ctx):
     if b is None:
         ctx.violation("R13.3", f"{de_impl[0]['file']}:{de_impl[0]['line']}", "coerce|deserialize_bytes|missing", "Deserializer for Any does not override deserialize_bytes (Base64 text could not be viewed as binary)")
     else:
+        # the decoding step may be a private accessor of the carrier (`self.decode_base64()`)
+        b = inline.expand(c, b, depth=2, pred=lambda cb: "/any/" in (cb.file or "") and cb.d.get("vis") != "pub" and not (cb.trait or "").startswith("serde_core::"), lower=True)
         eng = c01.uses_b64_standard(b)
         dec = [t for _, t in b.calls() if t["call"]["def"] == "base64::engine::Engine::decode"]
         vis = [t for _, t in b.calls() if t["call"].get("name") == "visit_byte_buf"]
@@ -276,6 +278,7 @@ def run(ctx):
         if b is None:
             ctx.violation("R13.4", "conjure_object", f"option|{owner}|missing", f"{owner}: deserialize_option not overridden")
             continue
+        b = inline.expand(c, b, depth=2, pred=lambda cb: "/any/" in (cb.file or "") and cb.d.get("vis") != "pub" and not (cb.trait or "").startswith("serde_core::"), lower=True)
         m, wild = discr_switch_map(b, F, lambda t: (t["call"].get("trait") or "") == "serde_core::de::Visitor")
         good = m.get("Null") == {"visit_none"} and all(m.get(v) == {"visit_some"} for v in names if v != "Null")
         ctx.check(good, "R13.4", b.loc(), f"option|{owner}", f"{owner}::deserialize_option: Null must map to visit_none and every other variant to visit_some; got Null->{sorted(m.get('Null', []))}",
